@@ -437,6 +437,9 @@ func runC07(c *core.Ctx) {
 	nSinks, nLoops := wireIntegerSinks(c, d, "C07.alloc", "C07.loop", false)
 	c.Note("wire-integer sinks examined: %d allocations, %d loops", nSinks, nLoops)
 
+	c.Doc("C07.wire-index", "an integer read from the input indexes or slices only behind a comparison with the length of what is indexed", 1)
+	ruleWireIntegerIndex(c, d, "C07.wire-index")
+
 	c.Doc("C07.panic", "no explicit panic reachable from a decoder entry point", 1)
 	ruleNoPanicInDecoders(c, d)
 	c.Doc("C07.parsers", "parser node builders: parallel slices indexed together have checked equal lengths; unchecked assertions confined to today's sites", 3)
